@@ -466,4 +466,22 @@ example : ∀ fuel, upqsetpv (mask .a) (mask .q) (mask .p) cycleNas fuel 10 = .e
     (by decide) (by decide) (by decide) (by decide) (by decide) (by decide) (by decide) (by decide)
     (by decide) (by decide) fuel).1
 
+/-- `Separate` is needed: SE 10 flags its q-set scalar point 91; SE 20, later in `selist`, has a
+b-set scalar point with the same downstream id 91 and writes `False` over it (index assignment:
+the later entry wins).  Row 0 is connected to a q-set DOF but not flagged. -/
+def overlapNas : Nas where
+  selist := [(10, 0), (20, 0), (0, 0)]
+  uset := [(10, [(91, 0, 4194304)]), (20, [(91, 0, 2), (92, 0, 4194304)]), (0, [(91, 0, 2), (92, 0, 2)])]
+  dnids := [(10, [91]), (20, [91, 92])]
+  maps := [(10, []), (20, []), (0, [])]
+  upids := []
+
+example : upqsetpv (mask .a) (mask .q) (mask .p) overlapNas 4 0 = .ok [false, true] ∧
+    QConn (mask .a) (mask .q) (mask .p) overlapNas 0 0 ∧
+    separateB (mask .a) (mask .q) (mask .p) overlapNas = false :=
+  ⟨by decide,
+   QConn.own (seup := 10) (k := 0) (idx := [0]) (usetup := [(91, 0, 4194304)]) (qup0 := [true])
+     (by decide) (by decide) (by decide) (by decide) (by decide) (by decide),
+   by decide⟩
+
 end PyYetiVerif.C18
